@@ -35,6 +35,57 @@ pub fn pool(tier: Tier) -> Vec<Value> {
         json!({"a": {"b": 2}}), json!({"a": [1]}), json!({"a": [1.0]}), json!([{"a": 1}]), json!([{"a": 1.0}]),
         json!([{}]), json!([[]]), json!([1, 2, 3]), json!([1, 2]), json!([3, 2, 1]), json!({"a": 1, "b": 2, "c": 3}),
     ]);
+    // magnitude thresholds with integer / float twins (f32 exactness, i32 / u32 range, decimal printing form)
+    for x in [16777216i64, 16777217, 2147483647, 2147483648, 4294967295, 4294967296, 4294967297, 1000000000000000, 1000000000000001, 100000000000000000] {
+        v.push(json!(x));
+        v.push(json!(-x));
+        v.push(json!(x as f64));
+    }
+    v.extend([json!(16777216.5), json!(1e21), json!(1e22), json!(1e-7), json!(1e-6)]);
+    // medium-size containers and strings (15 ... 65 elements / members / characters) that are equal, or differ
+    // in exactly one place (first, middle, last; value, number spelling, key), or are a prefix of the other
+    let lens: &[usize] = match tier { Tier::Quick => &[16, 17, 33], Tier::Thorough => &[15, 16, 17, 31, 32, 33, 64, 65] };
+    for &n in lens {
+        let base: Vec<Value> = (0..n).map(|i| json!(i % 4)).collect();
+        v.push(Value::Array(base.clone()));
+        for pos in [0, n / 2, n - 1] {
+            let mut a = base.clone();
+            a[pos] = json!(9);
+            v.push(Value::Array(a));
+            let mut b = base.clone();
+            b[pos] = json!((pos % 4) as f64);
+            v.push(Value::Array(b));
+        }
+        v.push(Value::Array(base[..n - 1].to_vec()));
+        let key = |i: usize| format!("k{:03}", i);
+        let obj: serde_json::Map<String, Value> = (0..n).map(|i| (key(i), json!(i % 4))).collect();
+        v.push(Value::Object(obj.clone()));
+        for pos in [0, n / 2, n - 1] {
+            let mut a = obj.clone();
+            a.insert(key(pos), json!(9));
+            v.push(Value::Object(a));
+            let mut b = obj.clone();
+            b.remove(&key(pos));
+            b.insert(format!("k{:03}x", pos), json!(pos % 4));
+            v.push(Value::Object(b));
+            let mut c = obj.clone();
+            c.insert(key(pos), json!(null));
+            v.push(Value::Object(c));
+        }
+        let mut shorter = obj.clone();
+        shorter.remove(&key(n - 1));
+        v.push(Value::Object(shorter));
+        let sb: Vec<char> = (0..n).map(|i| (b'a' + (i % 3) as u8) as char).collect();
+        v.push(json!(sb.iter().collect::<String>()));
+        for pos in [0, n / 2, n - 1] {
+            for c in ['z', 'é'] {
+                let mut t = sb.clone();
+                t[pos] = c;
+                v.push(json!(t.iter().collect::<String>()));
+            }
+        }
+        v.push(json!(sb[..n - 1].iter().collect::<String>()));
+    }
     crate::enumr::dedup_text(v)
 }
 
